@@ -507,3 +507,95 @@ Proof.
   intros E H. unfold construct. rewrite E. cbn. f_equal. induction H as [|[k v] t Hv Ht IH]; [reflexivity|]. cbn [map]. rewrite IH.
   cbn [snd] in Hv. destruct v; [reflexivity | congruence].
 Qed.
+
+(** ** when the overwrite succeeds: the group path must not run through a dataset *)
+Definition group_free (f : file) (b : path) : Prop := forall q, is_prefix q b = true -> is_data q f = false.
+
+Lemma is_prefix_of_prefixes p : forall q, In q (prefixes p) -> is_prefix q p = true.
+Proof.
+  induction p as [|a p IH]; intros q H; cbn in H; [contradiction|]. destruct H as [<-|H]; [reflexivity|].
+  apply in_map_iff in H as [q' [<- H]]. cbn. rewrite (proj2 (str_eqb_eq a a) eq_refl). cbn. apply IH. exact H.
+Qed.
+Lemma is_prefix_snoc q b k : is_prefix q (b ++ [k]) = true -> q = b ++ [k] \/ is_prefix q b = true.
+Proof.
+  revert q. induction b as [|a b IH]; intros q H.
+  - destruct q as [|x q]; [right; reflexivity|]. cbn in H. apply andb_prop in H as [H1 H2]. apply str_eqb_eq in H1. subst x.
+    destruct q; [left; reflexivity | discriminate].
+  - destruct q as [|x q]; [right; reflexivity|]. cbn in H. apply andb_prop in H as [H1 H2]. apply str_eqb_eq in H1. subst x.
+    destruct (IH q H2) as [->|Hp]; [left; reflexivity | right; cbn; rewrite (proj2 (str_eqb_eq a a) eq_refl); exact Hp].
+Qed.
+Lemma is_data_lookup q f : is_data q f = false <-> (forall d, lookup q f <> Some (NData d)).
+Proof. unfold is_data. destruct (lookup q f) as [[|d]|]; split; intros; try congruence; try reflexivity. exfalso. eapply H; reflexivity. Qed.
+
+Section Success.
+Variable gn : str.
+Hypothesis Hgn : gwf gn.
+Let base := split_path gn.
+Let P (k : str) := split_path (gn ++ k).
+
+Lemma create_ok f k d : simple k -> group_free f base -> mem (P k) f = false -> exists f2, create (P k) d f = inl f2.
+Proof.
+  intros Hk Hf Hm. unfold create. fold (P k). rewrite Hm.
+  replace (existsb (fun q => is_data q f) (prefixes (P k))) with false; [eexists; reflexivity|].
+  symmetry. apply not_true_is_false. intro E. apply existsb_exists in E as [q [Hq Hd]].
+  apply is_prefix_of_prefixes in Hq. unfold P in Hq. rewrite (path_of_key gn k Hgn Hk) in Hq. fold base in Hq.
+  destruct (is_prefix_snoc _ _ _ Hq) as [->|Hp].
+  - unfold is_data in Hd. fold base in Hm. unfold P in Hm. rewrite (path_of_key gn k Hgn Hk) in Hm. fold base in Hm.
+    apply mem_lookup in Hm. rewrite Hm in Hd. discriminate.
+  - rewrite (Hf q Hp) in Hd. discriminate.
+Qed.
+
+Lemma group_free_del f k : simple k -> group_free f base -> group_free (del (P k) f) base.
+Proof.
+  intros Hk Hf q Hq. apply is_data_lookup. intros d E. rewrite lookup_del_other in E.
+  - specialize (Hf q Hq). exact (proj1 (is_data_lookup _ _) Hf d E).
+  - destruct (is_prefix (P k) q) eqn:Ep; [|reflexivity]. apply is_prefix_length in Ep. apply is_prefix_length in Hq.
+    unfold P in Ep. rewrite (path_of_key gn k Hgn Hk) in Ep. fold base in Ep. rewrite app_length in Ep. cbn in Ep. lia.
+Qed.
+Lemma group_free_create f f2 k d : simple k -> group_free f base -> create (P k) d f = inl f2 -> group_free f2 base.
+Proof.
+  intros Hk Hf Hc q Hq. apply is_data_lookup. intros d' E. pose proof (create_inl _ _ _ _ Hc) as [Hm ->].
+  destruct q as [|a q]; [discriminate|].
+  rewrite lookup_cons_ne in E.
+  - (* the entry is a new group or an old entry *)
+    destruct (mem (a :: q) f) eqn:Em.
+    + rewrite lookup_new_groups_mem in E by exact Em. specialize (Hf _ Hq). exact (proj1 (is_data_lookup _ _) Hf d' E).
+    + assert (G : forall l, lookup (a :: q) (fold_right (fun r acc => if mem r f then acc else (r, NGroup) :: acc) [] l ++ f) <> Some (NData d')).
+      { induction l as [|r l IH]; cbn [fold_right app].
+        - apply mem_lookup in Em. rewrite Em. discriminate.
+        - destruct (mem r f); [exact IH|]. cbn [app]. destruct (path_eqb r (a :: q)) eqn:E2.
+          + apply path_eqb_eq in E2. subst r. rewrite lookup_cons_eq by discriminate. discriminate.
+          + apply path_eqb_neq in E2. rewrite lookup_cons_ne by (try discriminate; exact E2). exact IH. }
+      exact (G _ E).
+  - discriminate.
+  - intro Eq. apply is_prefix_length in Hq. rewrite <- Eq in Hq. unfold P in Hq. rewrite (path_of_key gn k Hgn Hk) in Hq. fold base in Hq.
+    rewrite app_length in Hq. cbn in Hq. lia.
+Qed.
+
+Lemma write_dict_succeeds items : forall f,
+  (forall k it, In (k, it) items -> simple k /\ flat_item it) -> group_free f base ->
+  exists f', write_dict true f gn items true = (f', None).
+Proof.
+  induction items as [|[k0 it0] t IH]; intros f Hit Hf; [eexists; reflexivity|].
+  assert (Hk0 : simple k0 /\ flat_item it0) by (apply Hit; left; reflexivity). destruct Hk0 as [Hk0 Hfl].
+  assert (Hit' : forall k it, In (k, it) t -> simple k /\ flat_item it) by (intros; apply Hit; right; assumption).
+  cbn [write_dict]. fold (P k0).
+  assert (Hf1 : group_free (if mem (P k0) f then del (P k0) f else f) base) by (destruct (mem (P k0) f); [apply group_free_del; assumption | exact Hf]).
+  assert (Hm1 : mem (P k0) (if mem (P k0) f then del (P k0) f else f) = false).
+  { destruct (mem (P k0) f) eqn:E; [|exact E]. apply mem_lookup. apply lookup_del_same. unfold P. rewrite (path_of_key gn k0 Hgn Hk0). destruct (split_path gn); discriminate. }
+  destruct Hfl as [->|[d ->]].
+  - cbn [andb]. apply IH; assumption.
+  - rewrite andb_true_r. destruct (create_ok _ k0 d Hk0 Hf1 Hm1) as [f2 Ec]. rewrite Ec. apply IH; [exact Hit'|]. eapply group_free_create; eauto.
+Qed.
+End Success.
+
+(** a well-typed object of a flat class can always be written over a location whose group path is free *)
+Theorem to_hdf5_succeeds (s : cls_spec) (o : obj) (f : file) (g : option str) :
+  flat_spec s = true -> wf_obj s o = true -> g <> Some [] ->
+  (forall gn, norm_group g = inl gn -> group_free f (split_path gn)) ->
+  exists f', to_hdf5 true s f g o true = (f', None).
+Proof.
+  intros Hs Hwf Hg Hfree. unfold to_hdf5. destruct (norm_group g) as [gn|e] eqn:Eg.
+  - destruct (norm_group_wf _ _ Eg) as [Hgn _]. apply write_dict_succeeds; [exact Hgn | apply items_flat; assumption | apply Hfree; reflexivity].
+  - exfalso. destruct g as [[|c s0]|]; cbn in Eg; try discriminate. apply Hg. reflexivity.
+Qed.
